@@ -45,3 +45,16 @@ pub fn guard<T>(f: impl FnOnce() -> T + UnwindSafe) -> Result<T, PanicInfo> {
 pub fn in_repo(p: &PanicInfo) -> bool {
     p.location.contains("altrios-core")
 }
+
+/// true if the panic was raised by one of the crate's own debug_assert!s (sites listed by
+/// tools/debug_assert_sites.py into bin/debug_assert_sites.txt next to the binary)
+pub fn is_debug_assert_site(p: &PanicInfo) -> bool {
+    use std::sync::OnceLock;
+    static SITES: OnceLock<Vec<String>> = OnceLock::new();
+    let sites = SITES.get_or_init(|| {
+        let exe = std::env::current_exe().ok();
+        let f = exe.and_then(|e| e.parent().map(|d| d.join("debug_assert_sites.txt")));
+        f.and_then(|f| std::fs::read_to_string(f).ok()).map(|s| s.lines().map(|l| l.trim().to_string()).filter(|l| !l.is_empty()).collect()).unwrap_or_default()
+    });
+    sites.iter().any(|s| p.location.ends_with(s.as_str()))
+}
